@@ -391,6 +391,10 @@ func runC09(e *Env) {
 			nonsense(label, "1[1]{"+v+"}", convD, nil)
 		}
 	}
+	for _, v := range []string{"txt=a,bpm=0", "bpm=0,txt=a", "key=Am,vel=xx", "vel=ff,mtr=4/0", "lic=x,key=Cmaj,mrk=y", "bpm=120,bpm=0"} {
+		nonsense("combined-metadata/text-metadata", "C[1]{"+v+"}", convS, nil)
+		nonsense("combined-metadata/text-metadata", "1[1] R[1]{"+v+"}", convD, nil)
+	}
 	nonsense("unknown-symbol/text", "Cxyz[1]", convS, []string{"write"})
 	nonsense("unknown-symbol/text", "1_99[1]", convD, []string{"write"})
 	nonsense("mixed-notation/text", "C[1] 2[1]", convS, nil)
@@ -473,6 +477,57 @@ func runC09(e *Env) {
 	cases = append(cases, c09Case{Label: "inconsistent-dictionary/unnamed-attribute", Args: []string{"write", "--attr", "{DIR}/a.yml"}, Stdin: inst("", okValues), Files: map[string]string{"a.yml": "- name: \"\"\n  degree: \"3\"\n"}, Expect: "fail"})
 	cases = append(cases, c09Case{Label: "inconsistent-dictionary/missing-file", Args: []string{"write", "--chord", "{DIR}/nope.yml"}, Stdin: inst("", okValues), Expect: "fail"})
 	cases = append(cases, c09Case{Label: "inconsistent-dictionary/directory", Args: []string{"write", "--chord", "{DIR}"}, Stdin: inst("", okValues), Expect: "fail"})
+	// the same refusals when the input arrives as a FILE argument instead of stdin
+	for _, c := range append([]c09Case{}, cases[nShort+nMut:]...) {
+		if c.Stdin == "" || c.OutArg || len(c.Files) > 0 || len(c.Pipe) > 0 {
+			continue
+		}
+		fc := c
+		fc.Label += "/file-argument"
+		fc.Files = map[string]string{"input.txt": c.Stdin}
+		fc.Stdin = "- chord:\n    degree: \"1\"\n    name: \"\"\n  values:\n    - \"1\"\n"
+		if c.Args[0] == "text" {
+			fc.Stdin = "C[1]"
+		}
+		// the positional FILE goes right after the subcommand words
+		n := 0
+		for n < len(c.Args) && !strings.HasPrefix(c.Args[n], "-") {
+			n++
+		}
+		fc.Args = append(append(append([]string{}, c.Args[:n]...), "{DIR}/input.txt"), c.Args[n:]...)
+		cases = append(cases, fc)
+	}
+	// unusual but well-formed dictionary files: robustness only
+	deep := func(n int) string {
+		var b strings.Builder
+		for i := 0; i < n; i++ {
+			fmt.Fprintf(&b, "- name: Deep%d\n  meta:\n    display: d%d\n", i, i)
+			if i == 0 {
+				b.WriteString("  attributes:\n    - Perfect1\n")
+			} else {
+				fmt.Fprintf(&b, "  extends: Deep%d\n  attributes:\n    - Major3\n", i-1)
+			}
+		}
+		return b.String()
+	}
+	oddDicts := map[string]string{
+		"deep-extends-300": deep(300),
+		"alias-cycle":      "- &a\n  name: UserA\n  meta: {display: ua}\n  attributes: *a\n",
+		"anchors":          "- name: UserA\n  meta: &m {display: ua}\n  attributes: &x [Major3]\n- name: UserB\n  meta: {display: ub}\n  attributes: *x\n",
+		"empty-attribute":  "- name: UserA\n  meta: {display: ua}\n  attributes: [\"\"]\n",
+		"null-entry":       "- name: UserA\n  meta: {display: ua}\n  attributes: [Major3]\n-\n",
+		"numbers":          "- name: 1\n  meta: {display: 2}\n  attributes: [3]\n",
+		"empty-file":       "",
+	}
+	for name, d := range oddDicts {
+		for _, cmd := range [][]string{{"write"}, {"info", "chord", "describe", "-t", "C_d299"}, {"info", "chord", "list"}} {
+			cases = append(cases, c09Case{Label: "odd-dictionary/" + name, Args: append(append([]string{}, cmd...), "--chord", "{DIR}/c.yml"), Stdin: inst("", okValues), Files: map[string]string{"c.yml": d}, Expect: "any"})
+		}
+	}
+	for _, a := range []string{"- name: X\n  degree: \"0\"\n", "- name: X\n  degree: \"\"\n", "- name: X\n", "- name: X\n  degree: [1]\n", "- name: X\n  degree: \"4\"\n- name: X\n  degree: \"5\"\n", "-\n"} {
+		cases = append(cases, c09Case{Label: "odd-dictionary/attribute", Args: []string{"info", "attr", "describe", "-t", "X", "--attr", "{DIR}/a.yml"}, Files: map[string]string{"a.yml": a}, Expect: "any"})
+		cases = append(cases, c09Case{Label: "odd-dictionary/attribute", Args: []string{"write", "--attr", "{DIR}/a.yml"}, Stdin: inst("", okValues), Files: map[string]string{"a.yml": a}, Expect: "any"})
+	}
 	nTable := len(cases) - nShort - nMut
 
 	// (d) flag values: robustness only
@@ -535,7 +590,7 @@ func runC09(e *Env) {
 	})
 	e.R.AddPart(ev.Part{Name: "short-inputs-cli", Enumerated: fmt.Sprintf("real binary: every chord text of length <= %d over 22 symbols (C04's alphabet + NUL, 0xFF, 0xC3, ♯, CR) on text parse / conv degree / conv syllable; every YAML string of length <= 2 over 15 symbols on write / write event / write parse / write conv; every string of length <= 2 over C04's alphabet (and 14 longer ones) as the -t target of info chord describe, 9 x 8 (target, root) pairs of info attr describe", tl), Executions: int64(nShort), Exhaustive: true})
 	e.R.AddPart(ev.Part{Name: "one-deviation-mutants-cli", Enumerated: fmt.Sprintf("real binary: every truncation, deletion, and replacement/insertion by each of 20 bytes at every position of %s", map[bool]string{true: "3 chord texts, 3 instance documents, a chord file and an attribute file", false: "1 chord text, 1 instance document and a chord file"}[e.Thorough]), Executions: int64(nMut), Exhaustive: true})
-	e.R.AddPart(ev.Part{Name: "nonsense-table-cli", Enumerated: "real binary: {zero / zero-denominator durations, no durations, bpm 0, unknown dynamic, bad meter, unknown symbol, unknown modifier / conversion / target, keys without scale (H, c, Cmaj, xxG#yy, Fb, E#m, Abm), mixed notation, empty piece, inconsistent dictionaries} x {text metadata, YAML field, flag} x every command that has to interpret it, each also with -o; nonsense that a stage may pass on is piped into `write`, which must refuse it", Executions: int64(nTable), Exhaustive: true})
+	e.R.AddPart(ev.Part{Name: "nonsense-table-cli", Enumerated: "real binary: {zero / zero-denominator durations, no durations, bpm 0, unknown dynamic, bad meter, unknown symbol, unknown modifier / conversion / target, keys without scale (H, c, Cmaj, xxG#yy, Fb, E#m, Abm), mixed notation, empty piece, inconsistent dictionaries} x {text metadata, YAML field, flag} x every command that has to interpret it, each also with -o and with the input given as a FILE argument; nonsense that a stage may pass on is piped into `write`, which must refuse it; plus unusual dictionary files (deep extends chain, YAML anchors/alias cycle, empty/null entries) held to the failure-shape oracle", Executions: int64(nTable), Exhaustive: true})
 	e.R.AddPart(ev.Part{Name: "flag-values-cli", Enumerated: "real binary: every value flag of every command x {empty, 0, -1, abc, 1e3, 2^64-1, 2^64, 300 digits, invalid UTF-8, C, 1/2}; --track 2, 33, 70000; valid baselines", Executions: int64(nFlags), Exhaustive: true})
 
 	// in-process short inputs (longer than through the binary)
